@@ -3,7 +3,7 @@ CONSTANTS
   NCo = 2
   MaxSteps = 3
   MaxT = 4
-  MaxOps = 12
+  MaxOps = 14
   Deviations = {}
 VIEW view
 INVARIANTS NoViolation ResultOnce ReadyExact
